@@ -14,6 +14,15 @@
 #include <dispatch/dispatch.h>
 #include "../sim/sim.h"
 
+#ifndef QOS_CLASS_DEFAULT   /* the Linux public headers do not define the QoS classes (values from src/shims/priority.h) */
+#define QOS_CLASS_USER_INTERACTIVE 0x21
+#define QOS_CLASS_USER_INITIATED 0x19
+#define QOS_CLASS_DEFAULT 0x15
+#define QOS_CLASS_UTILITY 0x11
+#define QOS_CLASS_BACKGROUND 0x09
+#define QOS_CLASS_MAINTENANCE 0x05
+#define QOS_CLASS_UNSPECIFIED 0x00
+#endif
 #define NSEC 1000000000ull
 #define MSEC 1000000ull
 #define USEC 1000ull
